@@ -12,8 +12,12 @@ VX = os.path.join(VERIF, "vx", "target", "release", "vx")
 MARK = "// @@EXTRACTED@@"
 
 
-class Undecided(Exception):
-    pass
+try:  # one class for the whole driver: a unit that cannot be extracted is undecided, the other units still run
+    sys.path.insert(0, os.path.dirname(os.path.abspath(__file__)))
+    from common import Undecided
+except Exception:  # pragma: no cover
+    class Undecided(Exception):
+        pass
 
 
 def load_unit(name):
